@@ -42,6 +42,7 @@ func (l *vWAL) Register(h wal.EventHandler) {
 }
 func (l *vWAL) Close() error { return nil }
 func (l *vWAL) Log(typ string, item any) (wal.Commit, error) {
+	defer vGuard()()
 	if l.w.fault("wal.Log") {
 		return nil, vErrInjected
 	}
@@ -100,6 +101,7 @@ func (l *vWAL) Recover(ctx context.Context) {
 // ---- more of the world ----
 
 func (m *vRmgr) GetNodesDeployCapacity(_ context.Context, names []string, _ resourcetypes.Resources) (map[string]*plugintypes.NodeDeployCapacity, int, error) {
+	defer vGuard()()
 	if m.w.fault("rmgr.GetNodesDeployCapacity") {
 		return nil, 0, vErrInjected
 	}
@@ -115,6 +117,7 @@ func (m *vRmgr) GetNodesDeployCapacity(_ context.Context, names []string, _ reso
 }
 
 func (s *vStore) GetDeployStatus(context.Context, string, string) (map[string]int, error) {
+	defer vGuard()()
 	if s.w.fault("store.GetDeployStatus") {
 		return nil, vErrInjected
 	}
@@ -142,6 +145,7 @@ func vDeployCount(w *vWorld, node string) int {
 }
 
 func (s *vStore) CreateProcessing(_ context.Context, p *types.Processing, count int) error {
+	defer vGuard()()
 	if s.w.fault("store.CreateProcessing") {
 		return vErrInjected
 	}
@@ -150,6 +154,7 @@ func (s *vStore) CreateProcessing(_ context.Context, p *types.Processing, count 
 }
 
 func (s *vStore) DeleteProcessing(_ context.Context, p *types.Processing) error {
+	defer vGuard()()
 	if s.w.fault("store.DeleteProcessing") {
 		return vErrInjected
 	}
@@ -158,6 +163,7 @@ func (s *vStore) DeleteProcessing(_ context.Context, p *types.Processing) error 
 }
 
 func (e *vEngine) VirtualizationCreate(_ context.Context, opts *enginetypes.VirtualizationCreateOptions) (*enginetypes.VirtualizationCreated, error) {
+	defer vGuard()()
 	e.w.createSeen = true
 	if e.w.fault("engine.VirtualizationCreate") {
 		return nil, vErrInjected
@@ -169,6 +175,7 @@ func (e *vEngine) VirtualizationCreate(_ context.Context, opts *enginetypes.Virt
 }
 
 func (e *vEngine) VirtualizationStart(_ context.Context, id string) error {
+	defer vGuard()()
 	if e.w.fault("engine.VirtualizationStart") {
 		return vErrInjected
 	}
@@ -177,6 +184,7 @@ func (e *vEngine) VirtualizationStart(_ context.Context, id string) error {
 }
 
 func (e *vEngine) VirtualizationInspect(_ context.Context, id string) (*enginetypes.VirtualizationInfo, error) {
+	defer vGuard()()
 	if e.w.fault("engine.VirtualizationInspect") {
 		return nil, vErrInjected
 	}
